@@ -1,5 +1,6 @@
 import CookModel.Basic.Proto
 import CookModel.Syntax.CharTable
+import CookModel.Driver.Render
 namespace Cook.Driver
 open Cook Proto
 
@@ -10,6 +11,14 @@ def handleSyntax : List String → Option String
     let off ← parseNat? off
     let s ← parseText? txt
     return " ".intercalate ((lexFrom realCharSpec off s).map renderTok)
+  | ["events", ext, txt] => do
+    let ext ← parseNat? ext
+    let s ← parseText? txt
+    return rEvents (pullEvents (α := Float) realCharSpec ⟨ext⟩ s)
+  | ["metaevents", ext, txt] => do
+    let ext ← parseNat? ext
+    let s ← parseText? txt
+    return rEvents (pullMetaEvents (α := Float) realCharSpec ⟨ext⟩ s)
   | ["classbits", cp] => do
     let cp ← parseNat? cp
     return toString (classBits (Char.ofNat cp))
